@@ -134,10 +134,7 @@ class ProvXMLSerializer(Serializer):
                 )
                 if isinstance(value, prov.model.Literal):
                     if value.datatype not in [None, PROV["InternationalizedString"]]:
-                        subelem.attrib[_ns_xsi("type")] = "%s:%s" % (
-                            value.datatype.namespace.prefix,
-                            value.datatype.localpart,
-                        )
+                        subelem.attrib[_ns_xsi("type")] = str(value.datatype)
                     if value.langtag is not None:
                         subelem.attrib[_ns_xml("lang")] = value.langtag
                     v = value.value
